@@ -78,6 +78,13 @@ func Load(patterns []string, options ...func(c *packages.Config)) (*Universe, er
 			}
 		}
 
+		if info, ok := pkg.(*pkgInfo); ok {
+			// newPkg ran before the dependencies were registered: resolve the imports now
+			for k, importedPkg := range p.Imports {
+				info.imports[k] = u.pkgs[importedPkg.PkgPath]
+			}
+		}
+
 		u.pkgs[p.PkgPath] = pkg
 
 		for rootPkgPath := range rootPkgPaths {
